@@ -42,26 +42,31 @@ variable [Add α] [Sub α] [Mul α] [Div α] [Neg α] [LT α] [LE α] [Decidable
   [BEq α] [OfNat α 0] [OfNat α 1] [OfNat α 2] [OfNat α 3] [OfNat α 4] [OfNat α 100] [OfNat α 1000]
   [OfScientific α] [FloatLike α]
 
-/-- [S] the composite-cone stage: every composite-cone operation the solver calls is total on
-consistently sized cone objects and vectors of the cone's dimension, up to the allowed
-numerical-domain sites.  The only law of the scalar type used is `FmaxOK` — and not even that when
-the second-order cone's `panic!("starting point of line search not in SOC")` is an allowed site. -/
-theorem coneStage' {E : String → Prop} (hs : FmaxOK α ∨ E "starting point of line search not in SOC")
-    (hw : E "argument not in supported range") (hb : E "backtrack_search: fuel") : ConeStage (α := α) E where
-  updateScaling := updateScaling_ok hw
-  affineDs := affineDs_ok
-  mulHs := mulHs_ok
-  combinedDsShift := combinedDsShift_ok
-  dsFromDzOffset := dsFromDzOffset_ok
-  stepLength := stepLength_ok' hs hb
-  unitInitialization := unitInitialization_ok
-  computeBarrier := computeBarrier_ok hw
-  getHs := getHs_ok
-  setIdentity := setIdentityScaling_ok
-  symInit := symInit_ok
-
-theorem coneStage {E : String → Prop} (hf : FmaxOK α) (hw : E "argument not in supported range")
-    (hb : E "backtrack_search: fuel") : ConeStage (α := α) E := coneStage' (Or.inl hf) hw hb
+/-- [S] the composite-cone stage for composites with the KKT view `specs`: every composite-cone
+operation the solver calls is total on consistently sized cone objects and vectors of the cone's
+dimension, up to the allowed numerical-domain sites — `_wright_omega` only if the composite has an
+exponential cone, `backtrack_search` only if it has a nonsymmetric cone.  The only law of the scalar
+type used is `FmaxOK` — and not even that when the second-order cone's
+`panic!("starting point of line search not in SOC")` is an allowed site. -/
+theorem coneStageFor {E : String → Prop} (specs : List Kkt.ConeSpec)
+    (hs : FmaxOK α ∨ E "starting point of line search not in SOC")
+    (hw : hasExp specs → E "argument not in supported range")
+    (hb : hasNonsym specs → E "backtrack_search: fuel") : ConeStage (α := α) E specs where
+  updateScaling := fun cones s z mu dual h h1 h2 hsp =>
+    updateScaling_okC cones s z mu dual (fun he => hw (hsp ▸ he)) h h1 h2
+  affineDs := fun cones ds s h h1 h2 _ => affineDs_ok cones ds s h h1 h2
+  mulHs := fun cones y x h h1 h2 _ => mulHs_ok cones y x h h1 h2
+  combinedDsShift := fun cones shift stepZ stepS σμ h h1 h2 h3 _ =>
+    combinedDsShift_ok cones shift stepZ stepS σμ h h1 h2 h3
+  dsFromDzOffset := fun cones out ds z h h1 h2 h3 _ => dsFromDzOffset_ok cones out ds z h h1 h2 h3
+  stepLength := fun ls cones dz ds z s msf amax h h1 h2 h3 h4 hsp =>
+    stepLength_okC hs ls cones dz ds z s msf amax (fun hn => hb (hsp ▸ hn)) h h1 h2 h3 h4
+  unitInitialization := fun cones z s h h1 h2 _ => unitInitialization_ok cones z s h h1 h2
+  computeBarrier := fun cones z s dz ds a h h1 h2 h3 h4 hsp =>
+    computeBarrier_okC cones z s dz ds a (fun he => hw (hsp ▸ he)) h h1 h2 h3 h4
+  getHs := fun cones h _ => getHs_ok cones h
+  setIdentity := fun cones hsym h _ => setIdentityScaling_ok cones hsym h
+  symInit := fun cones v n m hsym h hm hv _ => symInit_ok cones v n m hsym h hm hv
 
 /-- [S] the linear-solver stage for the QDLDL backend, unconditionally -/
 theorem kktStage (specs : List Kkt.ConeSpec) (n m : Nat) (st : LinSettings α) :
@@ -69,11 +74,18 @@ theorem kktStage (specs : List Kkt.ConeSpec) (n m : Nat) (st : LinSettings α) :
   kktTotalN getHs_ok specs n m st
 
 /-- [S] all stages of `solve()` for the QDLDL backend -/
+theorem stagesFor {E : String → Prop} (hs : FmaxOK α ∨ E "starting point of line search not in SOC")
+    (d : ProblemData α) (specs : List Kkt.ConeSpec) (st : Settings α)
+    (hw : hasExp specs → E "argument not in supported range")
+    (hb : hasNonsym specs → E "backtrack_search: fuel") :
+    Stages E (KktInvWN specs d.n d.m) (KktInvSN specs d.n d.m) d specs st :=
+  ⟨coneStageFor specs hs hw hb, midStage (coneStageFor specs hs hw hb), kktStage specs d.n d.m st.lin⟩
+
 theorem stagesQdldl' {E : String → Prop} (hs : FmaxOK α ∨ E "starting point of line search not in SOC")
     (hw : E "argument not in supported range")
     (hb : E "backtrack_search: fuel") (d : ProblemData α) (specs : List Kkt.ConeSpec) (st : Settings α) :
     Stages E (KktInvWN specs d.n d.m) (KktInvSN specs d.n d.m) d specs st :=
-  ⟨coneStage' hs hw hb, midStage (coneStage' hs hw hb), kktStage specs d.n d.m st.lin⟩
+  stagesFor hs d specs st (fun _ => hw) (fun _ => hb)
 
 theorem stagesQdldl {E : String → Prop} (hf : FmaxOK α) (hw : E "argument not in supported range")
     (hb : E "backtrack_search: fuel") (d : ProblemData α) (specs : List Kkt.ConeSpec) (st : Settings α) :
@@ -102,6 +114,35 @@ theorem solve_okOrN {E : String → Prop} (hf : FmaxOK α) (hw : E "argument not
   unfold SolverInvN
   rw [e1, e2]
   exact hI
+
+/-- [S] **solve half, sharp form**: the sites a `solve()` can stop at are those of ITS OWN composite
+cone: `_wright_omega` only if it has an exponential cone, `backtrack_search` only if it has a
+nonsymmetric cone (`SiteFor`) -/
+theorem solve_okOrFor (hf : FmaxOK α) {S : Solver α} (st : Settings α) (h : SolverInvN S) :
+    OkOr (SiteFor (S.st.cones.map ConeSt.kktSpec)) (S.solve st) (fun r => SolverInvN r.S) := by
+  refine (solve_okOr (stagesFor (Or.inl hf) S.st.data (S.st.cones.map ConeSt.kktSpec) st
+    (fun he => Or.inl ⟨rfl, he⟩) (fun hn => Or.inr ⟨rfl, hn⟩)) h).mono fun r hI => ?_
+  have e1 : r.S.st.data = S.st.data := hI.st.data
+  have e2 : r.S.st.cones.map ConeSt.kktSpec = S.st.cones.map ConeSt.kktSpec := hI.st.specs
+  unfold SolverInvN
+  rw [e1, e2]
+  exact hI
+
+/-- [S] a composite WITHOUT exponential cone: the only site left is the fuel of `backtrack_search` -/
+theorem solve_okOr_noExp (hf : FmaxOK α) {S : Solver α} (st : Settings α) (h : SolverInvN S)
+    (hne : ¬ hasExp (S.st.cones.map ConeSt.kktSpec)) :
+    OkOr (fun s => s = "backtrack_search: fuel") (S.solve st) (fun r => SolverInvN r.S) :=
+  (solve_okOrFor hf st h).mono_site fun s hs =>
+    hs.elim (fun h1 => absurd h1.2 hne) (fun h2 => h2.1)
+
+/-- [S] a composite with SYMMETRIC cones only (zero / nonnegative / second-order), run through the
+model with nonsymmetric cones: `solve()` returns `.ok` — no exception at all, as for the symmetric
+model (`C04.full_no_panic`) -/
+theorem solve_ok_symmetric (hf : FmaxOK α) {S : Solver α} (st : Settings α) (h : SolverInvN S)
+    (hns : ¬ hasNonsym (S.st.cones.map ConeSt.kktSpec)) :
+    OkAnd (S.solve st) (fun r => SolverInvN r.S) :=
+  OkOr.okAnd ((solve_okOrFor hf st h).mono_site fun s hs =>
+    hs.elim (fun h1 => hns ⟨_, h1.2, Or.inl rfl⟩) (fun h2 => hns h2.2))
 
 /-- [S] **the invariant is kept by every `solve()` that returns** — no law of the scalar type at all
 (instantiate the stages with every panic site allowed): whatever a successful `solve()` leaves
